@@ -1,4 +1,145 @@
-"""pure-function differential tests (fn mode) - filled in per family"""
+"""pure-function differential tests (fn mode, DESIGN.md 4.1): the real Rust functions and the
+Lean model are called on the same generated inputs; for `mw` an independent Python glob is
+the oracle as well (implementation-vs-oracle failures are reported separately from
+model disagreements)."""
+import os, random, itertools
+from . import runner
+from .canon import esc, unesc
+from .monitors import glob as pyglob
+
+ALPHA = ["a", "b", "*", "?", "é", "€"]
+WORDS = ["alice", "bob", "#a", "&c", "#sec", "*", "?", ":", "::", ":x y", "+o", "-o", "+b", "+l", "5", "0", "-1",
+         "99999999999999999999", "é", "ü€𝄞", "a:b", "a,b", ",", "#a,#b", "~@#a", "@", "&", "#", "irc.test", "a.b",
+         "*.*", "\t", "x\ty", "\r", "+k", "+lk", "+ovh", "+", "-", "+z", "a!b@c", "*!*@*", "", " ", "+4", "302", "301",
+         "LS", "REQ", "END", "LIST", "multi-prefix", "65535", "65536", "u", "m", "uu", "k1", "\x0c", "\x0b", " "]
+VERBS = ["CAP", "AUTHENTICATE", "PASS", "NICK", "USER", "PING", "PONG", "OPER", "QUIT", "JOIN", "PART", "TOPIC",
+         "NAMES", "LIST", "INVITE", "KICK", "MOTD", "VERSION", "ADMIN", "CONNECT", "LUSERS", "TIME", "STATS",
+         "LINKS", "HELP", "INFO", "MODE", "PRIVMSG", "NOTICE", "WHO", "WHOIS", "WHOWAS", "KILL", "REHASH",
+         "RESTART", "SQUIT", "AWAY", "USERHOST", "WALLOPS", "ISON", "DIE", "FOO", "join", "PrivMsg", "mOdE"]
+
+
+def rand_line(r):
+    x = r.random()
+    if x < 0.8:
+        n = r.choice([0, 1, 1, 2, 2, 3, 4, 5, 6])
+        parts = [r.choice(VERBS)] + [r.choice(WORDS) for _ in range(n)]
+        sep = r.choice([" ", " ", " ", "  ", "\t"])
+        s = sep.join(parts)
+        if r.random() < 0.2:
+            s = ":" + r.choice(["src", "a!b@c", "a@b!c", "x:y", "", "é"]) + " " + s
+        if r.random() < 0.1:
+            s = r.choice([" ", "  ", "\t", " ", "\x0b"]) + s
+        if r.random() < 0.15:
+            s += r.choice([" ", " :", " : ", " :a b", ":", " ::"])
+        return s
+    n = r.choice([0, 1, 3, 8, 20])
+    return "".join(r.choice("ab #&:,*?!@+-~%.é€\t\r 019") for _ in range(n))
+
+
+def gen_calls(family, tier, r):
+    calls = []
+    if family == "mw":
+        maxlen = 3 if tier == "quick" else 4
+        pats = [""]
+        for n in range(1, maxlen + 1):
+            pats += ["".join(p) for p in itertools.product(ALPHA, repeat=n)]
+        texts = [t for t in pats if "*" not in t and "?" not in t]
+        for p in pats:
+            for t in texts:
+                calls.append(("mw", [p, t]))
+        for _ in range(3000 if tier == "quick" else 40000):
+            p = "".join(r.choice("ab*?*é!@.") for _ in range(r.choice([1, 3, 5, 8, 12])))
+            t = "".join(r.choice("abé!@.") for _ in range(r.choice([0, 2, 4, 8, 15, 30])))
+            calls.append(("mw", [p, t]))
+        for p, t in [("a*a", "a"), ("*!*@longhost.example", "a!b@c"), ("?", "é"), ("??", "é"), ("*", ""), ("", ""),
+                     ("", "a"), ("a", ""), ("**", "abc"), ("a**b", "ab"), ("*a*a*a*", "aa"), ("a*b*c", "abcabc")]:
+            calls.append(("mw", [p, t]))
+    elif family == "norm":
+        for _ in range(2000):
+            calls.append(("norm", ["".join(r.choice("ab!@*.é") for _ in range(r.choice([0, 1, 2, 4, 7])))]))
+    elif family == "msg":
+        for _ in range(4000 if tier == "quick" else 40000):
+            calls.append(("msg", [rand_line(r)]))
+    elif family == "cmd":
+        for _ in range(6000 if tier == "quick" else 60000):
+            calls.append(("cmd", [rand_line(r)]))
+        for v in VERBS:
+            for n in range(0, 6):
+                calls.append(("cmd", [" ".join([v] + ["#a"] * n)]))
+                calls.append(("cmd", [" ".join([v] + ["alice"] * n)]))
+                calls.append(("cmd", [" ".join([v] + ["a.b"] * n)]))
+    elif family == "render":
+        for _ in range(3000 if tier == "quick" else 20000):
+            calls.append(("render", [rand_line(r), r.choice(["n!u@h", "irc.test", "é!~x@::1"])]))
+    elif family == "validators":
+        for _ in range(3000):
+            s = "".join(r.choice("ab#&:,.*!@ ~%+é\t") for _ in range(r.choice([0, 1, 2, 3, 5])))
+            for f in ("vsrc", "vuser", "vchan", "vsrv", "vsrvmask", "vpchan", "tt"):
+                calls.append((f, [s]))
+        for b in range(32):
+            calls.append(("chum", [str(b), "0"]))
+            calls.append(("chum", [str(b), "1"]))
+    elif family == "codec":
+        for _ in range(1500 if tier == "quick" else 15000):
+            mx = r.choice([5, 8, 16])
+            n = r.choice([0, 3, 6, 10, 20, 40])
+            data = bytes(r.choice([97, 98, 10, 10, 13, 32, 0xc3, 0xa9, 0xff, 58]) for _ in range(n))
+            chunks = []
+            i = 0
+            while i < len(data):
+                k = r.choice([1, 1, 2, 3, 5, 9, 50])
+                chunks.append(data[i:i + k])
+                i += k
+            if r.random() < 0.1:
+                chunks.insert(r.randrange(len(chunks) + 1), b"")
+            calls.append(("codec", [str(mx)] + [c.hex() if c else "-" for c in chunks]))
+    return calls
+
+
+def fmt_call(c):
+    name, args = c
+    if name == "codec" or name == "chum":
+        return name + " " + " ".join(args)
+    return name + " " + " ".join(esc(a) for a in args)
+
+
+FAMILIES = {
+    "C13": ["msg", "cmd", "render", "validators", "codec"],
+    "C14": ["mw", "norm"],
+}
+
 
 def run(pid, families, tier, seed, log):
-    return {"calls": 0, "mismatches": [], "families": {}, "samples": []}
+    fams = FAMILIES.get(pid, [])
+    r = random.Random(seed * 7919 + 13)
+    os.makedirs(runner.WORK, exist_ok=True)
+    res = {"calls": 0, "mismatches": [], "families": {}, "samples": []}
+    for fam in fams:
+        calls = gen_calls(fam, tier, r)
+        path = runner.WORK + "/fn-%s-%s.txt" % (pid, fam)
+        with open(path, "w") as f:
+            for c in calls:
+                f.write(fmt_call(c) + "\n")
+        ri = runner.sh([runner.HARNESS, "fn", path], timeout=1800)
+        rm = runner.sh([runner.MODEL, "fn", path], timeout=1800)
+        if ri.returncode != 0 or rm.returncode != 0:
+            raise runner.BuildError("fn mode failed: %s %s" % (ri.stderr[-500:], rm.stderr[-500:]))
+        oi, om = ri.stdout.split("\n"), rm.stdout.split("\n")
+        n_bad = 0
+        for c, a, b in zip(calls, oi, om):
+            oracle_fail = False
+            if fam == "mw":
+                exp = "true" if pyglob(c[1][0], c[1][1]) else "false"
+                if a != exp:
+                    oracle_fail = True
+            if a != b or oracle_fail:
+                n_bad += 1
+                if n_bad <= 3:
+                    res["mismatches"].append({"family": fam, "call": c, "impl": a, "model": b,
+                                              "oracle_fail": oracle_fail or a == "PANIC",
+                                              "detail": ("impl=%s" % a)[:40]})
+        res["families"][fam] = {"calls": len(calls), "mismatches": n_bad}
+        res["calls"] += len(calls)
+        if calls:
+            res["samples"].append({"fn": fam, "call": calls[len(calls) // 2], "result": oi[len(calls) // 2]})
+    return res
